@@ -1,9 +1,10 @@
 package main
 
 import (
+	"encoding/json"
 	"fmt"
 	"runtime/debug"
-	"strconv"
+	"strings"
 	"time"
 
 	"verifharness/internal/gw"
@@ -11,33 +12,24 @@ import (
 )
 
 func init() {
+	// probe-gossip '<json Params>' : explore one scenario and print sizes
 	register("probe-gossip", func(args []string) int {
 		debug.SetGCPercent(800)
-		n := func(i, d int) int {
-			if len(args) > i {
-				v, _ := strconv.Atoi(args[i])
-				return v
-			}
-			return d
+		var p gw.Params
+		if err := json.Unmarshal([]byte(args[0]), &p); err != nil {
+			fmt.Println(err)
+			return 2
 		}
 		st := &gw.Stats{}
-		var sc *gw.Scenario
-		switch n(0, 1) {
-		case 1:
-			sc = gw.S1(n(1, 165), n(2, 2), n(3, 3), n(4, 1), n(5, -1))
-		case 2:
-			sc = gw.S2(n(1, 165), n(2, 2), n(3, 3), n(4, 1), n(5, -1), false)
-		case 3:
-			sc = gw.S3(n(1, 165), n(2, 2), n(3, 3), n(4, 1), n(5, -1))
-		}
-		res := mc.Explore[gw.Event](&gw.Sys{Sc: sc, Stats: st}, mc.Options{Deadline: 120 * time.Second, DeterminismEvery: 500})
+		sc := gw.Build(p)
+		res := mc.Explore[gw.Event](&gw.Sys{Sc: sc, Stats: st}, mc.Options{Deadline: 180 * time.Second, DeterminismEvery: 500, Known: func(v mc.Violation) bool { return len(args) > 1 && strings.HasPrefix(v.Sig, args[1]) }})
 		fmt.Printf("states=%d trans=%d depth=%d exhaustive=%v cap=%q wall=%s levels=%v\n", res.States, res.Transitions, res.DepthCompleted, res.Exhaustive, res.CapHit, res.Wall, res.LevelSizes)
 		fmt.Printf("stats=%+v\n", *st)
 		for _, v := range res.Violations {
 			fmt.Printf("VIOL %+v\n  hist=%v\n", v.V, v.History)
 		}
-		for _, s := range res.Samples {
-			fmt.Println("sample", s)
+		for _, v := range res.Known {
+			fmt.Printf("KNOWN(%d hits) %+v\n  hist=%v\n", res.KnownHits, v.V, v.History)
 		}
 		return 0
 	})
